@@ -77,7 +77,10 @@ func (r *Runner) judgeProj(line, obs, finger string, proj func(string) string, s
 	r.Lines = append(r.Lines, line)
 	io, mo := normObs(obs, model)
 	is, so := normObs(obs, spec)
-	if spec != "-" && specProj != nil && specProj(is) != specProj(so) {
+	if obs == "hang" || obs == "panic" {
+		// no answer at all: the implementation fails on this input whatever the reference says
+		r.c.mismatch(Mismatch{Kind: "spec", Backend: r.inst.Kind, Case: cs, Impl: obs, Model: model, Spec: "an answer (" + spec + ")", Finger: finger + ":" + obs})
+	} else if spec != "-" && specProj != nil && specProj(is) != specProj(so) {
 		r.c.mismatch(Mismatch{Kind: "spec", Backend: r.inst.Kind, Case: cs, Impl: obs, Model: model, Spec: spec, Finger: finger})
 	} else if proj(io) != proj(mo) {
 		r.c.mismatch(Mismatch{Kind: "model", Backend: r.inst.Kind, Case: cs, Impl: obs, Model: model, Spec: spec, Finger: finger})
@@ -480,16 +483,16 @@ type xmlList struct {
 
 // ListReq describes a ListObjects request.
 type ListReq struct {
-	Bucket             string
-	HasPrefix          bool
-	Prefix             string
-	HasDelim           bool
-	Delim              string
-	MarkerKind         string // "", "marker", "token", "start-after"
-	Marker             string
-	MaxKeys            string // raw query value, "" = absent
-	V2                 bool
-	ClampedMaxKeys     int64
+	Bucket         string
+	HasPrefix      bool
+	Prefix         string
+	HasDelim       bool
+	Delim          string
+	MarkerKind     string // "", "marker", "token", "start-after"
+	Marker         string
+	MaxKeys        string // raw query value, "" = absent
+	V2             bool
+	ClampedMaxKeys int64
 }
 
 type ListObs struct {
